@@ -207,9 +207,12 @@ func GetParameterSets(sample []byte) (vps, sps, pps [][]byte) {
 	sampleLength := uint32(len(sample))
 	var pos uint32 = 0
 naluLoop:
-	for pos < sampleLength {
+	for uint64(pos)+4 < uint64(sampleLength) {
 		naluLength := binary.BigEndian.Uint32(sample[pos : pos+4])
 		pos += 4
+		if uint64(pos)+uint64(naluLength) > uint64(sampleLength) {
+			break // bad length field
+		}
 		switch naluType := GetNaluType(sample[pos]); {
 		case naluType == NALU_VPS:
 			vps = append(vps, sample[pos:pos+naluLength])
